@@ -1006,7 +1006,7 @@ def name_based_readback(prog, rep, RID):
         n += 1
         rep.violation(RID, f"SolverWrapper.{m.name}:name-based-readback", f"{m.name} rebuilds the index of each variable by parsing its name (`{norm(parses[0])[:60]}`): HiGHS names "
                       "are prefix + repr(index) with every blank removed, so the variable ('a b', 'c', 0) comes back under ('ab', 'c', 0) - overwriting a different variable of that "
-                      "index - and (\"a'b\", 'c', 0) is dropped; values are not read back for exactly the variables asked for (get_values, by column index, is exact)", m.loc(parses[0]))
+                      "index - and (\"a'b\", 'c', 0) is dropped; values are not read back for exactly the variables asked for (get_values, by column index, is exact)", m.loc(parses[0]), self_contained=True)
     if n == 0:
         rep.ok(RID, "SolverWrapper:name-based-readback", "no public getter rebuilds indices from variable names", ci.methods["get_values"].loc())
 
@@ -1020,15 +1020,36 @@ def integer_bounds_rounded(prog, rep, RID):
     ifs = [i for i in ast.walk(f.node) if isinstance(i, ast.If) and "var_type" in norm(i.test) and "'integer'" in norm(i.test) and isinstance(i.test, ast.Compare)
            and isinstance(i.test.ops[0], ast.Eq)]
     down = up = None
+    def side(name: str):
+        """'ub' / 'lb': which parameter of add_variables the local `name` was materialised from (names are free)"""
+        for st in ast.walk(f.node):
+            if isinstance(st, ast.Assign) and norm(st.targets[0]) == name and not any(st is b for i in ifs for b in i.body):
+                names = {n.id for n in ast.walk(st.value) if isinstance(n, ast.Name)}
+                if "ub" in names and "lb" not in names:
+                    return "ub"
+                if "lb" in names and "ub" not in names:
+                    return "lb"
+        return None
+    swapped = None
     for i in ifs:
         for st in i.body:
             if isinstance(st, ast.Assign):
                 t = norm(st.value)
-                tgt = norm(st.targets[0])
-                if "floor" in t and "ub" in tgt:
-                    down = st
-                if "ceil" in t and "lb" in tgt:
-                    up = st
+                sd = side(norm(st.targets[0]))
+                if "floor" in t and "ceil" not in t:
+                    if sd == "ub":
+                        down = st
+                    elif sd == "lb":
+                        swapped = st
+                if "ceil" in t and "floor" not in t:
+                    if sd == "lb":
+                        up = st
+                    elif sd == "ub":
+                        swapped = st
+    if swapped is not None:
+        rep.violation(RID, key, f"`{norm(swapped)[:90]}` rounds a bound of integer variables outwards (lower bounds down / upper bounds up): values outside the requested bounds "
+                      "become admissible", f.loc(swapped))
+        return
     if down is not None and up is not None:
         rep.ok(RID, key, "bounds of integer variables are rounded inwards (ub floor, lb ceil)", f.loc(down))
     elif down is not None or up is not None:
